@@ -35,8 +35,16 @@ theorem removed_cleaned (age count : Nat) (ops : List Op) (op : Op) (e : Entry) 
   have hfn : c.hasFn = true := (run_cfg (mkCache age count true) ops).2.2.2
   exact step_removed_cleaned hwf hfn op he gone
 
-example : (step (after (mkCache 0 0 true) [.set 1 10 1 fun _ => false]) (.delete 1 fun _ => false)) = (_, [⟨1, 10, true⟩]) ∧
+example : (step (after (mkCache 0 0 true) [.set 1 10 1 fun _ => false]) (.delete 1 fun _ => false)).2 = [⟨1, 10, true⟩] ∧
     (step (after (mkCache 0 0 true) [.set 1 10 1 fun _ => false]) (.delete 1 fun _ => false)).1.entries = [] := by decide
+
+/-- **nothing is altered or invented.**  Every entry in the map after an operation is the same incarnation — same
+    key, same value, created by the same `Set` — as an entry of the map the operation started from; so an entry
+    cannot disappear "by turning into another one" either: the only way out of the map is the removal judged by
+    `removed_cleaned`. -/
+theorem entries_preserved (c : Cache) (op : Op) (e' : Entry) :
+    e' ∈ (step c op).1.entries → ∃ e ∈ (pre c op).entries, e'.key = e.key ∧ e'.val = e.val ∧ e'.id = e.id :=
+  fun h => step_origin h
 
 /-- **failed cleanup ⇒ kept.**  If a callback invocation made by an operation reports an error, an entry with
     this key and value is in the map after the operation (any cache, any operation). -/
@@ -99,11 +107,12 @@ theorem lru_first_by_use (age count : Nat) (hasFn : Bool) (ops : List Op) (now :
   · exact Or.inl h
   · exact Or.inr (by simpa [failing] using h)
 
-example : (pruneCount (after (mkCache 0 0 true) [.set 1 10 1 fun _ => false, .set 2 11 2 fun _ => false,
-      .set 3 12 3 fun _ => false, .get 1 4]) 5 fun _ => false).1.entries = [⟨2, 11, 2, 1⟩, ⟨3, 12, 3, 2⟩, ⟨1, 10, 4, 0⟩] ∧
-    (pruneCount { (after (mkCache 0 0 true) [.set 1 10 1 fun _ => false, .set 2 11 2 fun _ => false,
-      .set 3 12 3 fun _ => false, .get 1 4]) with minCount := 1 } 5 fun k => k == 2).1.entries
-      = [⟨2, 11, 5, 1⟩] := by decide
+example : (pruneCount (after (mkCache 0 3 true) [.set 1 10 1 fun _ => false, .set 2 11 2 fun _ => false,
+      .set 3 12 3 fun _ => false, .get 1 4]) 5 fun _ => false).1.entries = [⟨3, 12, 3, 2⟩, ⟨1, 10, 4, 0⟩] ∧
+    (pruneCount (after (mkCache 0 3 true) [.set 1 10 1 fun _ => false, .set 2 11 2 fun _ => false,
+      .set 3 12 3 fun _ => false, .get 1 4]) 5 fun k => k == 2).1.entries = [⟨2, 11, 5, 1⟩, ⟨1, 10, 4, 0⟩] ∧
+    (pruneCount (after (mkCache 0 3 true) [.set 1 10 1 fun _ => false, .set 2 11 2 fun _ => false,
+      .set 3 12 3 fun _ => false, .get 1 4]) 5 fun k => k == 2).2.1 = [⟨2, 11, false⟩, ⟨3, 12, true⟩] := by decide
 
 /-- **prune to limit.**  For every limit `count > 0`, after any history: when no cleanup fails, the map after a
     `Set` — including the count prune the `Set` triggers — holds at most `count` entries. -/
@@ -125,6 +134,30 @@ theorem prune_to_limit (age count : Nat) (hasFn : Bool) (ops : List Op) (k v now
 
 example : (set (after (mkCache 0 1 true) [.set 1 10 1 fun _ => false]) 2 11 2 fun _ => false).1.entries = [⟨2, 11, 2, 1⟩] ∧
     (set (after (mkCache 0 10 true) ((List.range 10).map fun i => .set i i i fun _ => false)) 10 10 10 fun _ => false).1.entries.length = 9 := by
+  decide
+
+/-- **prune to limit, deferred.**  The count prune runs on its own goroutine, possibly after further requests;
+    whenever it runs — after any history — and no cleanup fails, it leaves at most `count` entries (at most
+    `minCount`, in fact). -/
+theorem prune_to_limit_deferred (age count : Nat) (hasFn : Bool) (ops : List Op) (now : Nat) (fl : Nat → Bool)
+    (hpos : 0 < count) (hok : hasFn = true → ∀ k', fl k' = false) :
+    (pruneCount (after (mkCache age count hasFn) ops) now fl).1.entries.length ≤ count := by
+  obtain ⟨-, hmax, hmin, hfn⟩ := run_cfg (mkCache age count hasFn) ops
+  obtain ⟨h1, h2⟩ := mkCache_limits age count hasFn hpos
+  have := pruneCount_to_min (after (mkCache age count hasFn) ops) now fl (by rw [hmin]; exact h1)
+    (by
+      intro e _
+      rw [hfn]
+      cases hasFn with
+      | false => rfl
+      | true => simp [failing, hok rfl e.key])
+  rw [hmin] at this
+  have h3 : (mkCache age count hasFn).maxCount = count := rfl
+  omega
+
+example : (pruneCount (after (mkCache 0 2 true) [.set 1 10 1 fun _ => true, .set 2 11 2 fun _ => true,
+      .set 3 12 3 fun _ => true]) 4 fun _ => false).1.entries.length = 1 ∧
+    (after (mkCache 0 2 true) [.set 1 10 1 fun _ => true, .set 2 11 2 fun _ => true, .set 3 12 3 fun _ => true]).entries.length = 3 := by
   decide
 
 /-- F12, the code as it was (`minCount = ⌊0.9·Count⌋ = 0` for `Count = 1`): the count prune does nothing and the
